@@ -567,6 +567,8 @@ fn main() {
             }
         };
         let _ = writeln!(out, "{}", s);
+        // core.run_lines attributes a hang / crash to the first unanswered line: what has been computed must be out
+        let _ = out.flush();
     }
     let _ = out.flush();
 }
